@@ -113,6 +113,57 @@ pub fn run(rep: &mut Report) {
             }
         }
     }
+    // ---- multi-byte property identifiers: the identifier is a Variable Byte Integer, but every assigned value is
+    // below 128. An identifier of 256 * k + id is no property of any packet: the block [0x80 | id, 2 * k, value]
+    // must be refused wherever the property itself would be accepted.
+    let mut multibyte_cells = 0u64;
+    for (id, name, _ty) in rc::PROP_TABLE.iter() {
+        for loc in rc::ALL_LOCS {
+            if !rc::prop_allowed(*id, loc) {
+                continue;
+            }
+            let val = values(*id).into_iter().next().unwrap();
+            let p = Prop { id: *id, val };
+            if !rc::prop_value_legal(&p) {
+                continue;
+            }
+            let mut ps: Vec<Prop> = vec![];
+            if *id == 0x16 {
+                ps.push(Prop { id: 0x15, val: PVal::Str(b"m".to_vec()) });
+            }
+            ps.push(p.clone());
+            let ap = base(loc, ps.clone());
+            let wire = rc::encode(&ap, 2);
+            let rc::Framed::Frame { ty, flags, body, .. } = rc::frame_one(&wire) else { continue };
+            let blk = rc::enc_props(&ps);
+            let Some(at) = body.windows(blk.len()).position(|w| w == &blk[..]) else { continue };
+            for k in [1u8, 2] {
+                multibyte_cells += 1;
+                let mut inner: Vec<u8> = vec![];
+                for q in &ps {
+                    let e = rc::enc_prop(q);
+                    if q.id == *id {
+                        inner.extend_from_slice(&[0x80 | *id, 2 * k]);
+                        inner.extend_from_slice(&e[1..]);
+                    } else {
+                        inner.extend_from_slice(&e);
+                    }
+                }
+                let mut nb = body[..at].to_vec();
+                nb.extend_from_slice(&rc::enc_vbi(inner.len() as u32));
+                nb.extend_from_slice(&inner);
+                nb.extend_from_slice(&body[at + blk.len()..]);
+                let label = format!("{name} with identifier {} (bytes {:02x} {:02x}) in {loc:?}", (*id as u32) + 128 * (2 * k as u32), 0x80 | *id, 2 * k);
+                let r = guarded(|| bridge::parse_body::<u16>(Ver::V5, ty, flags, &nb).map(|r| r.is_ok()).unwrap_or(false));
+                match r {
+                    Err(m) => viols.push(Violation { rule: "c18.panic".into(), sig: format!("c18.panic|{name}|{loc:?}|multibyte-id"), detail: format!("cell [{label}]: panic: {m}"), config: "c18 placement table".into(), history: vec![json!(label), json!(crate::util::hex(&nb))] }),
+                    Ok(true) => viols.push(Violation { rule: "c18.parser-multibyte-id".into(), sig: format!("c18.parser-multibyte-id|{name}|{loc:?}"), detail: format!("cell [{label}]: the parser accepts a property identifier that is assigned to no property (it reads it as {name})"), config: "c18 placement table".into(), history: vec![json!(label), json!(crate::util::hex(&nb))] }),
+                    Ok(false) => {}
+                }
+            }
+        }
+    }
+    rep.count("c18.multibyte-id-cells", multibyte_cells);
     // ---- order independence: the position of a property in the block carries no meaning. Every ordered
     // pair of distinct kinds the specification allows in a location is accepted by builder and parser
     // (Authentication Data next to Authentication Method in both orders; any other pair containing
